@@ -158,7 +158,7 @@ pub fn run(ctx: &Ctx) -> Outcome {
                         cap_hits += 1;
                     }
                     if &got != want {
-                        if fj && (h.aux_mismatch > 0 || *base_mm) && !got.is_panic() && !want.is_panic() {
+                        if fj && p.has_cond() && (h.aux_mismatch > 0 || *base_mm) && !got.is_panic() && !want.is_panic() {
                             acc.known_hit("FJ", || format!("{} vs {} on {:?}@{}", s, vs, t, from));
                             continue;
                         }
